@@ -14,7 +14,7 @@
                        first of { advertisement whose normalised id equals the key -> Found it, at that time;
                                   Cancel k -> Cancelled; time passing the deadline -> NotFound at the deadline } *)
 From Coq Require Import List NArith ZArith Arith Bool Lia.
-From AHK Require Import Lib.Res Lib.ByteStr Model.Find Proofs.FindLts Proofs.FindParse Proofs.FindTxt Proofs.FindAgg.
+From AHK Require Import Lib.Res Lib.ByteStr Model.Find Proofs.FindLts Proofs.FindParse Proofs.FindTxt Proofs.FindAgg Proofs.FindNotif.
 Import ListNotations.
 Open Scope N_scope.
 
@@ -189,6 +189,82 @@ Theorem callback_is_adv_step_ble : forall c s data a,
     ble_callback c s (Some data) = step c s (Adv (Some (adv_descr a))).
 Proof. exact ble_callback_parsed. Qed.
 
+(* ---- encrypted notifications (type 0x11) inside the scanner callback ------------------------------ *)
+(* BlePairing._async_notification runs inside _device_detected with no exception guard.  Decryption is
+   abstract: [opens] = the state numbers at which THIS payload decrypts, with the plaintexts - any list.
+   [true] = with fixes/C19-encrypted-notification-never-raises.patch.  For every pairing state (no key, no
+   description, no accessory aid 1, any characteristic database) and every such list the handler returns. *)
+Theorem notification_never_raises : forall p opens, snd (notif_handle true p opens) <> NRaisedOut.
+Proof. exact notif_handle_guarded. Qed.
+
+(* the complete callback: advertisements AND notifications, any pairing table, any decryption behaviour *)
+Theorem callback_never_raises_ble_full : forall c s nps opens md,
+    good c -> ~ In Raised (snd (fst (ble_callback_full c true s nps opens md))).
+Proof. exact ble_callback_full_no_raise. Qed.
+
+(* outside the notification branch it IS the callback of callback_never_raises_ble (so every waiter
+   theorem above applies to it); a notification leaves waiters and discoveries alone *)
+Theorem ble_callback_full_extends_ble_callback : forall c guard s nps opens md,
+    (forall rest, md <> Some (17 :: rest)) ->
+    let r := ble_callback_full c guard s nps opens md in
+    (fst (fst (fst r)), snd (fst r)) = ble_callback c s md.
+Proof. exact ble_callback_full_agrees. Qed.
+
+Theorem notification_leaves_waiters_alone : forall c guard s nps opens rest,
+    fst (fst (fst (ble_callback_full c guard s nps opens (Some (17 :: rest))))) = s.
+Proof. exact notification_leaves_tables. Qed.
+
+(* the repair keeps the freshness bookkeeping: a payload that opens at a fresh state number with matching
+   inner number advances the stored number whatever becomes of its value; every rejection leaves the
+   pairing as it was; what reaches the listeners was decodable *)
+Theorem notification_advances_state_number : forall guard p opens start c pt,
+    np_key p = true -> np_sn p = Some start ->
+    first_open (cands start) opens = Some (c, pt) -> c <> start -> le_dec (slice pt 0 2) = c ->
+    np_sn (fst (notif_handle guard p opens)) = Some c.
+Proof. exact notif_handle_advances. Qed.
+
+Theorem notification_rejections_keep_pairing : forall guard p opens,
+    match snd (notif_handle guard p opens) with
+    | NNoKey | NNoDescription | NUndecryptable | NStale | NMismatch => fst (notif_handle guard p opens) = p
+    | _ => True
+    end.
+Proof. exact notif_handle_keeps. Qed.
+
+Theorem delivered_notification_is_decodable : forall guard p opens iid,
+    snd (notif_handle guard p opens) = NDelivered iid ->
+    exists db f start c pt, np_db p = Some db /\ nlookup iid db = Some f /\ np_sn p = Some start
+      /\ first_open (cands start) opens = Some (c, pt) /\ iid = le_dec (slice pt 2 4)
+      /\ from_bytes_chk f (slice pt 4 12) = Ok tt.
+Proof. exact notif_delivered_decodable. Qed.
+
+(* the code as found: an authentic, fresh notification for an unknown characteristic / with a value shorter
+   than its format / with invalid UTF-8 / for a pairing without accessory aid 1 raises out of the callback *)
+Theorem ble_unrepaired_notification_never_raises_refuted :
+    snd (notif_handle false p1 [(6, pt_of 6 99 [1; 2; 0; 0; 0; 0; 0; 0])]) = NRaisedOut
+    /\ snd (notif_handle false p1 [(6, pt_of 6 13 [1; 2])]) = NRaisedOut
+    /\ snd (notif_handle false p1 [(6, pt_of 6 16 [255; 254; 0; 0; 0; 0; 0; 0])]) = NRaisedOut
+    /\ snd (notif_handle false {| np_key := true; np_sn := Some 5; np_db := None |}
+                          [(6, pt_of 6 11 [1; 2; 0; 0; 0; 0; 0; 0])]) = NRaisedOut.
+Proof. exact (conj unrepaired_unknown_iid (conj unrepaired_short_value (conj unrepaired_bad_utf8 unrepaired_no_accessory))). Qed.
+
+(* non-vacuity: every outcome of the repaired handler occurs; the complete callback on a real byte string *)
+Example c19_notification_nonvacuous :
+  notif_handle true p1 [(6, pt_of 6 99 [1; 2; 0; 0; 0; 0; 0; 0])] = (set_sn p1 6, NPoll 99)
+  /\ notif_handle true p1 [(6, pt_of 6 13 [1; 2])] = (set_sn p1 6, NDropped 13)
+  /\ notif_handle true p1 [(6, pt_of 6 16 [255; 254; 0; 0; 0; 0; 0; 0])] = (set_sn p1 6, NDropped 16)
+  /\ notif_handle true p1 [(6, pt_of 6 11 [1; 2; 0; 0; 0; 0; 0; 0])] = (set_sn p1 6, NDelivered 11)
+  /\ notif_handle true p1 [(5, pt_of 5 11 [1; 2; 0; 0; 0; 0; 0; 0])] = (p1, NStale)
+  /\ notif_handle true p1 [(104, pt_of 104 11 [1; 2; 0; 0; 0; 0; 0; 0])] = (set_sn p1 104, NDelivered 11)
+  /\ notif_handle true p1 [(105, pt_of 105 11 [1; 2; 0; 0; 0; 0; 0; 0])] = (p1, NUndecryptable)
+  /\ notif_handle true p1 [(7, pt_of 6 11 [1; 2; 0; 0; 0; 0; 0; 0])] = (p1, NMismatch).
+Proof. exact repaired_same_inputs. Qed.
+
+Example c19_full_callback_nonvacuous :
+  snd (fst (ble_callback_full ble_cfg false st0 [(idn, p1)] [(6, pt_of 6 99 [1; 2; 0; 0; 0; 0; 0; 0])] (Some mdn))) = [Raised]
+  /\ ble_callback_full ble_cfg true st0 [(idn, p1)] [(6, pt_of 6 99 [1; 2; 0; 0; 0; 0; 0; 0])] (Some mdn)
+     = (st0, [(idn, set_sn p1 6)], [], Some (NPoll 99)).
+Proof. exact full_callback_demo. Qed.
+
 (* ---- the unrepaired BLE controller (DESIGN section 6 l, m) ------------------------------------ *)
 Theorem ble_unrepaired_no_lost_wakeup_refuted :
     outs_of ble_orig_cfg st0 [Find 1 id1 8; Advance 5; Adv (Some d1); Advance 5] = [Done 1%nat NotFound 8]
@@ -273,6 +349,14 @@ Print Assumptions no_event_raises.
 Print Assumptions callback_is_adv_step_mdns.
 Print Assumptions callback_ignores_invalid_mdns.
 Print Assumptions callback_is_adv_step_ble.
+Print Assumptions notification_never_raises.
+Print Assumptions callback_never_raises_ble_full.
+Print Assumptions ble_callback_full_extends_ble_callback.
+Print Assumptions notification_leaves_waiters_alone.
+Print Assumptions notification_advances_state_number.
+Print Assumptions notification_rejections_keep_pairing.
+Print Assumptions delivered_notification_is_decodable.
+Print Assumptions ble_unrepaired_notification_never_raises_refuted.
 Print Assumptions ble_unrepaired_no_lost_wakeup_refuted.
 Print Assumptions ble_unrepaired_callback_never_raises_refuted.
 Print Assumptions ble_registration_without_done_guard_refuted.
